@@ -89,3 +89,12 @@ def replay_meth(p,repo):
   if not r: print("the contract holds: NOT reproduced"); return 0
   for f in r: print("FAILED     :",f)
   return 1
+
+def replay_reg(p,repo):
+  if repo not in sys.path: sys.path.insert(0,repo)
+  from zoo import run
+  print("check      : register hierarchy against the pass-independent reference recurrence (zoo/regfam.py)"); print("design     :",p['design']); print(p['body'])
+  r=run._regjob((repo,p.get('seed',0),p['design'],p['body'],[tuple(c) for c in p['chain']]))
+  if not r['failed']: print("the contract holds on this design: NOT reproduced"); return 0
+  for f in r['failed']: print("FAILED     :",f)
+  return 1
